@@ -38,7 +38,8 @@ class C03(PropBase):
                 if len(fields) > 1:
                     pstr = '/'.join(val for _, val in fields[:-1])
                     more.append(Case('div', [['f', fields[:-1]], fields[-1][1]], 'div', meta))
-                if rng.random() < 0.25 and not c.args[0][1].count(':') and not any(ch in string for ch in '*>,?\n'):
+                if rng.random() < 0.25 and not c.args[0][1].count(':') and not any(ch in string for ch in '*>,?\n') \
+                        and not any(val in ('', '.', '..') for _, val in fields):      # (such values vanish in pathlib normalisation: D26, outside C05's value sets)
                     # the same Sid made from its own path (fields as the path resolver gives them)
                     for cfg in [pc[0] for pc in ctx['rawd']['path_configs']][:1]:
                         more.append(Case('via_path', [src, cfg, 'obs', ''], 'via_path', dict(meta, what='obs')))
